@@ -826,6 +826,8 @@ impl FatVolume {
                             block,
                         ) {
                             Err(Error::NotFound) => continue,
+                            // We saw the end-of-directory marker
+                            Err(Error::EndOfFile) => return Err(Error::NotFound),
                             x => return x,
                         }
                     }
@@ -859,6 +861,8 @@ impl FatVolume {
                             block,
                         ) {
                             Err(Error::NotFound) => continue,
+                            // We saw the end-of-directory marker
+                            Err(Error::EndOfFile) => return Err(Error::NotFound),
                             x => return x,
                         }
                     }
@@ -889,8 +893,8 @@ impl FatVolume {
         for (i, dir_entry_bytes) in block.chunks_exact(OnDiskDirEntry::LEN).enumerate() {
             let dir_entry = OnDiskDirEntry::new(dir_entry_bytes);
             if dir_entry.is_end() {
-                // Can quit early
-                break;
+                // Nothing after this marker is part of the directory
+                return Err(Error::EndOfFile);
             } else if dir_entry.matches(match_name) {
                 // Found it
                 // Block::LEN always fits on a u32
@@ -939,6 +943,10 @@ impl FatVolume {
                             Err(Error::NotFound) => {
                                 // Carry on
                             }
+                            Err(Error::EndOfFile) => {
+                                // We saw the end-of-directory marker
+                                return Err(Error::NotFound);
+                            }
                             x => {
                                 // Either we deleted it OK, or there was some
                                 // catastrophic error reading/writing the disk.
@@ -980,6 +988,10 @@ impl FatVolume {
                             Err(Error::NotFound) => {
                                 // Carry on
                                 continue;
+                            }
+                            Err(Error::EndOfFile) => {
+                                // We saw the end-of-directory marker
+                                return Err(Error::NotFound);
                             }
                             x => {
                                 // Either we deleted it OK, or there was some
@@ -1023,8 +1035,8 @@ impl FatVolume {
         for (i, dir_entry_bytes) in block.chunks_exact_mut(OnDiskDirEntry::LEN).enumerate() {
             let dir_entry = OnDiskDirEntry::new(dir_entry_bytes);
             if dir_entry.is_end() {
-                // Can quit early
-                break;
+                // Nothing after this marker is part of the directory
+                return Err(Error::EndOfFile);
             } else if dir_entry.matches(match_name) {
                 let start = i * OnDiskDirEntry::LEN;
                 // set first byte to the 'unused' marker
